@@ -110,6 +110,19 @@ def cuts_from_mask(mask, L):
 
 
 def run_case(case):
+    from ..kit.stackkit import loop_budget, LoopBudgetExceeded
+    from yowsup.layers.noise.layer_noise_segments import YowNoiseSegmentsLayer
+    # a framing loop that stops making progress must end the case instead of the run (no wall clock: a count of loop iterations)
+    try:
+        with loop_budget([YowNoiseSegmentsLayer.receive, YowNoiseSegmentsLayer.send], 20000000):
+            return _run_case(case)
+    except LoopBudgetExceeded as e:
+        out = Outcome()
+        out.fail("incoming", "incoming:framing_loop_makes_no_progress", {"error": str(e)})
+        return out
+
+
+def _run_case(case):
     out = Outcome()
     sub = case["sub"]
     if sub == "partitions":
